@@ -10,6 +10,7 @@
  *       requested kind (some/full) once, return the parser's verdict unchanged; unreadable -> error, parser not consulted;
  *   readRootMempressure: /proc/pressure/memory, and /proc/mempressure only when that is unreadable; error only when both are;
  *   readRootIopressure: /proc/pressure/io only;
+ *   readControllersAt: unreadable or empty cgroup.controllers is an error result; otherwise the tokens of its first line;
  *   readMemoryOomGroupAt: true exactly when the file is the single line "1"; never indexes;
  *   readKillPreferenceAt: PREFER if either prefer attribute is present (checked before any avoid attribute),
  *       AVOID if only an avoid attribute is, NORMAL otherwise; an xattr probe error is an error result. */
@@ -135,6 +136,16 @@ maybe_ResourcePressure Fs__readRootIopressure(Fs_PressureType type)
   __CPROVER_ensures(g_f1.ok ? PSI_VERDICT_ON(g_f1) : (!__CPROVER_return_value.ok && g_psi_calls == 0))
   __CPROVER_ensures(ghost_exc == 0);
 
+/* cgroup.controllers: the space-separated names on the first line */
+maybe_vec_str_t Fs__readControllersAt(Fs_DirFd dirfd)
+  __CPROVER_requires(ghost_exc == 0 && g_ntok <= VEC_MAX)
+  __CPROVER_assigns(g_lines, g_opened)
+  __CPROVER_ensures(g_opened == STR_cgroup_controllers)
+  /* unreadable or EMPTY -> error result (line 0 never indexed); otherwise the tokens of line 0 */ /*@C10,C15*/
+  __CPROVER_ensures((!g_lines.ok || g_lines.val.n == 0) ? !__CPROVER_return_value.ok
+      : (__CPROVER_return_value.ok && __CPROVER_return_value.val.vid == TOKENS_VID && __CPROVER_return_value.val.n == g_ntok))
+  __CPROVER_ensures(ghost_exc == 0);
+
 /* xattr probes */
 maybe__Bool g_tp, g_up, g_ta, g_ua;   /* trusted.oomd_prefer, user.oomd_prefer, trusted.oomd_avoid, user.oomd_avoid */
 uint64_t g_probes;
@@ -178,3 +189,4 @@ void h_readIopressureAt(void) { Fs_DirFd d; Fs_PressureType t; HAVOC_FR(); HAVOC
 #define HAVOC_ROOT() do { HAVOC_FR(); HAVOC(g_psi); HAVOC(g_f1); HAVOC(g_f2); g_psi_calls = 0; g_r1 = 0; g_r2 = 0; } while (0)
 void h_readRootMempressure(void) { Fs_PressureType t; HAVOC_ROOT(); Fs__readRootMempressure(t); CANARY; }
 void h_readRootIopressure(void) { Fs_PressureType t; HAVOC_ROOT(); Fs__readRootIopressure(t); CANARY; }
+void h_readControllersAt(void) { Fs_DirFd d; HAVOC_FR(); Fs__readControllersAt(d); CANARY; }
